@@ -307,6 +307,25 @@ func (m *model) postRender(entry, target string, ri renderInfo, ok bool) {
 	for _, f := range ri.deps {
 		m.st[f].rendered, m.st[f].touched = true, false
 	}
+	if entry == eVueRender {
+		// mirror of vuego's Vue.Render cache for the target (only used to delimit the known
+		// finding): gone when the file is missing, kept on an equal mtime, otherwise replaced by what
+		// loads (or gone when it does not load)
+		s := m.st[target]
+		hit := false
+		for h := range w.cache[target] {
+			if s.exists && h.mt == s.mt {
+				hit = true
+			}
+		}
+		switch {
+		case hit:
+		case !s.exists || !variants[target][s.v].LoadOK:
+			w.cache[target] = map[held]bool{}
+		default:
+			w.cache[target] = map[held]bool{{s.mt, s.v}: true}
+		}
+	}
 	if ri.ambiguous != "" {
 		// the engine may be following stale content: it may have looked at anything
 		for _, f := range allFiles {
@@ -334,12 +353,6 @@ func (m *model) postRender(entry, target string, ri renderInfo, ok bool) {
 	}
 	for _, f := range ri.deps {
 		note(f, must[f])
-	}
-	if entry == eVueRender {
-		w.cache[target] = map[held]bool{}
-		if s := m.st[target]; s.exists && variants[target][s.v].LoadOK {
-			w.cache[target][held{s.mt, s.v}] = true
-		}
 	}
 }
 
